@@ -21,6 +21,7 @@ from .common import Check
 import gen_forms  # noqa
 import pdf_reader  # noqa
 import instr  # noqa
+import nc_text  # noqa
 
 TACTIC = """Ltac qcases :=
   repeat match goal with
@@ -61,9 +62,26 @@ def candidates(H, year, overrides):
             t = pdf_reader.read_template(obj.pdf_file())
         except Exception:  # noqa
             continue
-        if t['source'] != 'xfa':
-            continue
         names = [f.base_name() for f in obj.fields() if isinstance(f, H['fields'].FloatField) or isinstance(f, H['fields'].IntegerField)]
+        if t['source'] != 'xfa':
+            # N.C. templates: no accessibility text; the printed captions of the page are the instructions
+            try:
+                caps = nc_text.captions(obj.pdf_file())
+            except Exception:  # noqa
+                continue
+            mapped = set(pf.field_name for pf in obj.pdf_fields() if isinstance(pf, H['pdf_fields'].TextPDFField) and getattr(pf, '_value_fn', None) is None)
+            for lab, cap in caps.items():
+                if re.search(r'\b(Add|Subtract|Multiply|enter the amount from)\b', cap, re.I):
+                    stats['widgets_with_arithmetic_words'] += 1
+                if lab not in mapped or lab not in names:
+                    continue
+                term = nc_text.parse(cap, names)
+                if term is None or any(n not in names for n in instr.lines_of(term)):
+                    continue
+                stats['parsed'] += 1
+                stats['parsed_from_printed_captions(N.C.)'] = stats.get('parsed_from_printed_captions(N.C.)', 0) + 1
+                out.append({'form': cls.form_name, 'line': lab, 'term': term, 'text': ('%s. %s' % (lab, cap))[:200], 'obj': obj})
+            continue
         seen = set()
         for pf in obj.pdf_fields():
             w = t['fields'].get(pf.pdf_field_name)
@@ -144,9 +162,23 @@ def carry_obligations(H, summ, y):
             t = pdf_reader.read_template(obj.pdf_file())
         except Exception:  # noqa
             continue
-        if t['source'] != 'xfa':
-            continue
         info = summ[y]['forms'][cls.form_name]
+        if t['source'] != 'xfa':
+            try:
+                caps = nc_text.captions(obj.pdf_file())
+            except Exception:  # noqa
+                continue
+            for lab, cap in caps.items():
+                if lab not in info['lines']:
+                    continue
+                here = '%s.%s' % (cls.form_name, lab)
+                for (dform, dline) in nc_text.carries(cap):
+                    if dform in summ[y]['forms'] and dline in summ[y]['forms'][dform]['lines']:
+                        out.append({'src': here, 'dst': '%s.%s' % (dform, dline), 'text': ('%s. %s' % (lab, cap))[:200]})
+                for (sform, sline) in nc_text.froms(cap):
+                    if sform in summ[y]['forms'] and sline in summ[y]['forms'][sform]['lines']:
+                        out.append({'src': '%s.%s' % (sform, sline), 'dst': here, 'text': ('%s. %s' % (lab, cap))[:200], 'equal': True})
+            continue
         for pf in obj.pdf_fields():
             w = t['fields'].get(pf.pdf_field_name)
             if not w or '.' in pf.field_name or not isinstance(pf, H['pdf_fields'].TextPDFField):
@@ -257,7 +289,64 @@ def real_eval(H, obj, line, env):
         return ('exc', '%s: %s' % (type(e).__name__, e))
 
 
-def search_witness(H, c, rng, reads, blank=()):
+def demand_value(H, year, r, qname, depth=0):
+    """the REAL value of a line that the solved return r did not evaluate: Field.value of the shipped definition, on the return's own
+    values and answers; lines and inputs it needs and the return lacks are evaluated / answered the same way (same answer policy)."""
+    solver = r['solver']
+    vals = solver._v.values
+    classes = {c.form_name: c for c in H['forms'].available_forms[year]}
+    cache = {}
+    asked = []
+
+    def form_obj(fq):
+        fname, _, inst = fq.partition(':')
+        if fq in getattr(solver, 'forms', {}):
+            return solver.forms[fq]
+        try:
+            return classes[fname](solver=solver, instance=(int(inst) if inst.isdigit() else inst) if inst else None)
+        except TypeError:
+            return classes[fname](solver=solver)
+
+    def line(q, d):
+        if q in vals:
+            return vals[q]
+        if q in cache:
+            return cache[q]
+        if d > 40:
+            raise RecursionError(q)
+        fq, _, base = q.rpartition('.')
+        fo = form_obj(fq)
+        field = [f for f in fo.fields() if f.base_name() == base][0]
+
+        class V(object):
+            def __getitem__(self, k):
+                return line(k if '.' in k else '%s.%s' % (fq, k), d + 1)
+
+        class I(object):
+            def __getitem__(self, k):
+                k = k if '.' in k else '%s.%s' % (fq, k)
+                try:
+                    return r['store'][k]
+                except Exception:  # noqa
+                    pass
+                f2, _, b2 = k.rpartition('.')
+                inp = [x for x in form_obj(f2).inputs() if x.base_name() == b2][0]
+                a = r['policy'].answer(inp, H)
+                asked.append((k, a))
+                return inp.value(a)
+        cache[q] = field.value(I(), V())
+        return cache[q]
+    return line(qname, depth), asked
+
+
+def tol_of(summ, y, c):
+    """a stored line is the instruction's amount rounded to the line's places: half a unit of the last place (a cent for 2 places, as before)"""
+    t = summ[y]['forms'][c['form']]['lines'][c['line']]['type']
+    places = int(t.split(':')[1]) if t.startswith('float') and ':' in t else 2
+    return (Fraction(1, 100) if places >= 2 else Fraction(1, 2 * 10 ** places)) + Fraction(1, 10 ** 6)
+
+
+def search_witness(H, c, rng, reads, blank=(), tol=Fraction(1, 100) + Fraction(1, 10 ** 6)):
     """seeded stores over the lines read; returns (env, observed, expected) on which code and instruction differ by more than a cent"""
     names = sorted(set(instr.lines_of(c['term'])) | set(reads))
     for attempt in range(400):
@@ -269,7 +358,7 @@ def search_witness(H, c, rng, reads, blank=()):
         if got[0] != 'val' or not isinstance(got[1], float):
             continue
         want = instr.evaluate(c['term'], env)
-        if abs(Fraction(got[1]) - want) > Fraction(1, 100) + Fraction(1, 10 ** 6):
+        if abs(Fraction(got[1]) - want) > tol:
             return env, got[1], want
     return None
 
@@ -280,12 +369,12 @@ def run(tier, seed):
     ck.rule = ('obligation = (year, form, line) whose template widget carries an arithmetic instruction that the strict grammar parses AND '
                'whose body lies in the arithmetic fragment: a Rocq lemma for ALL stores. Lines with an instruction the grammar cannot '
                'parse, or a body outside the fragment, carry no obligation and are counted. non-trivial = every obligation')
-    ck.trusted = ['Coq 8.16.1 kernel; Lqa (lra over Q)', 'tools/gen_forms.py (validated), tools/pdf_reader.py, tools/instr.py (the phrase grammar)',
+    ck.trusted = ['Coq 8.16.1 kernel; Lqa (lra over Q)', 'tools/gen_forms.py (validated), tools/pdf_reader.py, tools/pdf_text.py, tools/nc_text.py, tools/instr.py (the phrase grammars)',
                   'ArithProofs.compile_sound is proved for the core fragment; sums over constant lists and `a-b if a>b else 0.0` are recognised by '
                   'the extended fragment whose soundness is only validated (translator validation)',
                   'exact-decimal reading: rounding of each stored line to its places is part of the statement (the lemma equates the '
                   'expressions before rounding); binary64 effects are outside',
-                  'coverage: IRS templates only (NC templates have no accessibility text); worksheets without a PDF are not covered']
+                  'coverage: IRS templates (accessibility text) and N.C. templates (printed captions decoded by tools/pdf_text.py + tools/nc_text.py); worksheets without a PDF are not covered']
     H = scenarios.habutax_modules()
     summ = catalog.generate(ck, H)
     fz_path = os.path.join(common.ROOT, 'oracles', 'c02_obligations.json')
@@ -344,7 +433,7 @@ def run(tier, seed):
                 key = 'C02:%d:%s.%s' % (y, c['form'], c['line'])
                 if '%d:%s.%s' % (y, c['form'], c['line']) not in frozen:
                     continue    # never had a lemma: its instruction is conditional on form structure the term language cannot express
-                wit = search_witness(H, c, rng, [r for r in reads if '.' not in r and '*' not in r], blanks.get(c['form'], set()))
+                wit = search_witness(H, c, rng, [r for r in reads if '.' not in r and '*' not in r], blanks.get(c['form'], set()), tol_of(summ, y, c))
                 explored_outside += 1
                 if wit:
                     env, got, want = wit
@@ -368,7 +457,7 @@ def run(tier, seed):
                 ck.oblige('lemma:%d:%s.%s %s' % (y, c['form'], c['line'], '(core fragment)' if c['cls'] == 2 else '(extended fragment)'), True)
             else:
                 reads = [''.join(b for a, b in parts if a == 'lit') for (k, parts, ln) in summ[y]['forms'][c['form']]['lines'][c['line']]['refs'] if k == 'RV']
-                wit = search_witness(H, c, rng, [r for r in reads if '.' not in r and '*' not in r], blanks.get(c['form'], set()))
+                wit = search_witness(H, c, rng, [r for r in reads if '.' not in r and '*' not in r], blanks.get(c['form'], set()), tol_of(summ, y, c))
                 ck.oblige('lemma:%d:%s.%s' % (y, c['form'], c['line']), False, 'instruction: %s' % (c['term'],))
                 key = 'C02:%d:%s.%s' % (y, c['form'], c['line'])
                 if wit:
@@ -405,8 +494,11 @@ def run(tier, seed):
     x_pass(ck, summ, per_year)
     # carry sentences: the destination line must (statically, through intermediate lines) read the source line - for every copy of a per-person form
     carry_files = []
+    carry_bad = []
+    carry_all = {}
     for y in summ:
         obs = carry_obligations(H, summ, y)
+        carry_all[y] = obs
         if not obs:
             continue
         g = ref_graph(summ, y)
@@ -431,11 +523,7 @@ def run(tier, seed):
             ck.count((y, 'carry', o['src'], o['dst']), nontrivial=True)
             ck.oblige('carry:%d:%s -> %s' % (y, o['src'], o['dst']), good_k, o['text'])
             if not good_k:
-                ck.violation('C02:%d:carry:%s' % (y, o['src']),
-                             'ty%d: the template of %s says "%s" but %s never reads %s (on any path, directly or through other lines)' % (
-                                 y, o['src'].split('.')[0], o['text'][-90:], o['dst'], o['src']),
-                             {'kind': 'proof-or-correspondence', 'theorem_or_correspondence': 'C02 carry %d %s -> %s' % (y, o['src'], o['dst']),
-                              'sentence': o['text']}, found=False)
+                carry_bad.append((y, o))
         ck.cov.setdefault('carry_sentences', {})[str(y)] = {'obligations': len(obs), 'hold': n_ok}
     res2 = ck.coqc_many([f for _, _, f in thm_files], timeout=1200)
     for y, n, f in thm_files:
@@ -481,12 +569,67 @@ def run(tier, seed):
                 continue
             want = instr.evaluate(c['term'], env)
             n_cmp += 1
-            if abs(Fraction(repr(vals[key])) - want) > Fraction(1, 100) + Fraction(1, 10 ** 6):
+            if abs(Fraction(repr(vals[key])) - want) > tol_of(summ, year, c):
                 ck.violation('C02:%d:%s' % (year, key),
                              'ty%d %s line %s is %r in a solved return where the instruction "%s" gives %s' % (year, c['form'], c['line'], vals[key], c['text'][:90], float(want)),
                              {'kind': 'failing-input', 'year': year, 'form': c['form'], 'line': c['line'], 'instruction_text': c['text'],
                               'instruction_term': list(c['term']), 'line_values': {k_: float(v_) for k_, v_ in env.items()}, 'observed': vals[key], 'expected': float(want),
                               'inputs': [(a_[0], a_[1]) for a_ in r['policy'].asked][:400]}, found=True)
+    # carries: "enter the total here and on Form X, line N" / "(From Form X, Line N)" on REAL solved returns - both ends equal
+    n_eq = 0
+    carry_witness = {}
+    for (year, r) in results:
+        if not r['ok']:
+            continue
+        vals = r['solver']._v.values
+        for o in carry_all.get(year, []):
+            if not o.get('equal') or o['src'] not in vals or o['dst'] not in vals:
+                continue
+            a, b = vals[o['src']], vals[o['dst']]
+            if isinstance(a, bool) or isinstance(b, bool) or not isinstance(a, (int, float)) or not isinstance(b, (int, float)):
+                continue
+            n_eq += 1
+            if abs(a - b) > 0.005 and (year, o['src'], o['dst']) not in carry_witness:
+                carry_witness[(year, o['src'], o['dst'])] = {'observed_source': a, 'observed_destination': b,
+                                                             'inputs': [(a_[0], a_[1]) for a_ in r['policy'].asked][:400],
+                                                             'forms_requested': r.get('forms_requested')}
+    reported = set()
+    for (y, o) in carry_bad:
+        k3 = (y, o['src'], o['dst'])
+        reported.add(k3)
+        w = carry_witness.get(k3)
+        if w is None and o.get('equal'):
+            # the source was never evaluated (nothing reads it): evaluate its real definition on each solved return that holds the destination
+            for (year, r) in results:
+                if year != y or not r['ok'] or o['dst'] not in r['solver']._v.values:
+                    continue
+                if not any(k_.startswith(o['src'].rpartition('.')[0] + '.') for k_ in r['solver']._v.values):
+                    continue          # the source form takes no part in this return (the carry's condition is not met)
+                b = r['solver']._v.values[o['dst']]
+                try:
+                    a, extra = demand_value(H, y, r, o['src'])
+                except Exception:  # noqa
+                    continue
+                if isinstance(a, (int, float)) and not isinstance(a, bool) and isinstance(b, (int, float)) and abs(a - b) > 0.005:
+                    w = {'observed_source': a, 'observed_destination': b, 'source_evaluated': 'by Field.value of the shipped line on the values and answers of this return (the solve never evaluated it)',
+                         'inputs': [(a_[0], a_[1]) for a_ in r['policy'].asked][:400], 'further_answers_used': extra[:60]}
+                    break
+        rep = {'kind': 'failing-input' if w else 'proof-or-correspondence', 'theorem_or_correspondence': 'C02 carry %d %s -> %s' % (y, o['src'], o['dst']),
+               'sentence': o['text'], 'year': y}
+        if w:
+            rep.update(w)
+        ck.violation('C02:%d:carry:%s' % (y, o['src']),
+                     'ty%d: the template of %s says "%s" but %s never reads %s (on any path, directly or through other lines)%s' % (
+                         y, (o['dst'] if o.get('equal') and 'From Form' in o['text'] else o['src']).split('.')[0], o['text'][-90:], o['dst'], o['src'],
+                         ('; in a solved return %s is %r and %s is %r' % (o['src'], w['observed_source'], o['dst'], w['observed_destination'])) if w else ''),
+                     rep, found=bool(w))
+    for k3, w in carry_witness.items():
+        if k3 in reported:
+            continue
+        y, src, dst = k3
+        ck.violation('C02:%d:carry:%s' % (y, src), 'ty%d: %s is %r but %s, which the template says carries it, is %r in a solved return' % (
+            y, src, w['observed_source'], dst, w['observed_destination']), dict(w, kind='failing-input', year=y, source=src, destination=dst), found=True)
+    ck.cov['carries_equal_on_real_returns'] = n_eq
     ck.cov['instruction_vs_real_returns'] = {'comparisons': n_cmp, 'instructions_compared_only_this_way': {str(y): len(v) for y, v in MONITOR_ONLY.items()}}
     catalog.validate(ck, H, summ, results)
     if per_year.get(2023):
